@@ -162,6 +162,13 @@ LOSSY_PARSERS = {
     "pendulum.parse": "ignores the UTC offset of time-only text ('01:02:03+05:30' -> today at UTC) and rejects offsets with a seconds part",
 }
 
+# pendulum.Duration recomputes these in __new__ from the *float* total_seconds(): they are not the exact base-class fields
+DURATION_FLOAT_ATTRS = {
+    "days", "seconds", "microseconds", "remaining_seconds", "remaining_days", "hours", "minutes", "weeks",
+    "total_seconds", "total_minutes", "total_hours", "total_days", "total_weeks",
+    "in_seconds", "in_minutes", "in_hours", "in_days", "in_weeks",
+}  # fmt: skip
+
 UTC_NAMES = {"datetime.timezone.utc", "datetime.UTC"}
 
 # classes whose == is as fine as their printed form *and* which admit no subclass with extra printed state in this
